@@ -27,6 +27,13 @@ ERR_LINES = ["\txyzzy", "\tlda #300", "\terror \"e\"", "\tnop 1,2,3"]
 GOOD_LINES = ["\tnop", "\tlda #1", "\tsta $10", "lbl%d:\tinx", "\tmessage \"m\""]
 
 
+# diagnostics of the end of the pass: kind -> (lines appended to the file, is a warning)
+TAILS = {"tailpushv": (["tw\tset 1", "\tpushv ,tw"], True), "tailif": (["\tif 1", "\tnop"], False),
+         "tailsection": (["\tsection ts", "\tnop"], False), "tailrept": (["\trept 2", "\tnop"], False),
+         "tailmacro": (["tm\tmacro", "\tnop"], False)}
+TAIL = sorted(TAILS)
+
+
 def budget(tier):
     return dict(examples=8000 if tier == "quick" else 40000, shards=16)
 
@@ -52,6 +59,9 @@ def gen_file(d, name, allow_big, idx):
         blocks.append([kind, cnt])
     if cls == "fatal":
         blocks.insert(d.int(0, len(blocks)), [d.choice(["fatal", "finc"]), 1])
+    if cls not in ("clean", "undef") and d.bool(0.3):
+        # a diagnostic that is only raised when the pass ends (open construct, symbol stack left filled)
+        blocks.append([d.choice(TAIL), 1])
     return dict(name=name, blocks=blocks)
 
 
@@ -99,6 +109,9 @@ def render(f):
             body = "\tlda undefd%d" % k
             k += 1
             cnt = min(cnt, 3)
+        elif kind in TAILS:
+            lines += TAILS[kind][0]
+            continue
         if cnt >= 200:
             lines += ["\trept %d" % cnt, body, "\tendm"]
         else:
@@ -124,7 +137,7 @@ def model(case):
             if kind == "undef":
                 cnt = min(cnt, 3)
             for _ in range(cnt):
-                if kind == "warn" and not o.get("werror"):
+                if (kind == "warn" or kind in TAILS and TAILS[kind][1]) and not o.get("werror"):
                     w += 1
                 elif kind in ("fatal", "finc"):
                     e += 1
@@ -145,8 +158,8 @@ def model(case):
     return dict(per=per, status=status, total=total_diag)
 
 
-NATIVE = re.compile(r"^> > > \S+\(\d+\)[^\n]*?: (error|warning)( #\d+)?: ", re.M)
-GNU = re.compile(r"^[^\s:>]+:\d+(:\d+)?( #\d+)?: ", re.M)
+NATIVE = re.compile(r"^> > > (?:INTERNAL|\S+\(\d+\)[^\n]*?): (error|warning)( #\d+)?: ", re.M)
+GNU = re.compile(r"^(?:INTERNAL|[^\s:>]+:\d+(:\d+)?)( #\d+)?: ", re.M)
 
 
 def execute(case):
@@ -160,6 +173,12 @@ def execute(case):
         nt.append("errors")
     if o.get("werror") and any(k == "warn" and c for f in case["files"] for k, c in f["blocks"]):
         nt.append("werror-warn")
+    for f in case["files"]:
+        for k, c in f["blocks"]:
+            if k in TAILS:
+                nt.append("end-of-pass:" + k[4:])
+                if o.get("werror") and TAILS[k][1]:
+                    nt.append("werror-warn")
     if big:
         nt.append("boundary")
     if m["status"] == 3:
@@ -245,6 +264,10 @@ def fixed_cases(tier):
                     opts=dict(base)))
     out.append(dict(files=[dict(name="s0", blocks=[["good", 2]]), dict(name="s1", blocks=[["err2", 1]])],
                     opts=dict(base, E="bare")))
+    for k in TAIL:
+        for extra in ({}, dict(werror=True), dict(maxerrors=1), dict(gnu=True, n=True)):
+            out.append(dict(files=[dict(name="s0", blocks=[["good", 2], [k, 1]]), dict(name="s1", blocks=[["good", 1]])],
+                            opts=dict(base, q=False, **extra)))
     return out
 
 
